@@ -83,7 +83,7 @@ impl Prop for C13 {
         }
     }
     fn required_probes(&self, _tier: Tier) -> Vec<&'static str> {
-        vec!["txs_ge_100_in_block", "outputs_ge_500_in_tx", "threads_64", "stale_tmp_longer_than_output", "same_name_rerun", "index_files_rewritten", "index_has_non_active_records"]
+        vec!["txs_ge_100_in_block", "outputs_ge_500_in_tx", "threads_64", "stale_tmp_longer_than_output", "same_name_rerun", "index_files_rewritten", "index_has_non_active_records", "same_length_stale_result"]
     }
     fn explore(&self, item: u64, rng: &mut Rng, _tier: Tier, h: &mut Harness) -> Result<(), String> {
         let coin = COINS[(item % 8) as usize];
@@ -91,7 +91,25 @@ impl Prop for C13 {
             // ---- (a) schedules
             let mut scn = new_scenario("C13", "schedules", coin);
             let nb = rng.usize(1, 3);
+            let uniform = rng.chance(1, 3);
             for i in 0..nb {
+                if uniform {
+                    // all transactions of identical shape, size and value: every maximum is a tie
+                    let n_tx = rng.usize(8, 120);
+                    let mut b = wide_block(coin, i as u64, n_tx, 1, rng);
+                    for (k, t) in b.txs.iter_mut().enumerate() {
+                        if k > 0 {
+                            t.inputs[0].script_sig = Bytes(vec![7u8; 20]);
+                            t.inputs[0].prev_index = 0;
+                            t.outputs = vec![OutDesc {
+                                value: 5_000 + 32 * 7,
+                                script: Bytes(p2pkh(&rng.bytes(20))),
+                            }];
+                        }
+                    }
+                    scn.chain.push(b);
+                    continue;
+                }
                 let (n_tx, max_out) = match rng.below(4) {
                     0 => (rng.usize(100, 400), 4),
                     1 => (rng.usize(1, 3), rng.usize(500, 2000)),
@@ -184,6 +202,38 @@ impl Prop for C13 {
             prev = Some(r);
         }
         scn.runs[0].fresh_data = true;
+        // an earlier result with the same NAME and the same LENGTH as what the first run will write, other content
+        if rng.chance(1, 2) {
+            let r0 = scn.runs[0].clone();
+            let m = Model::new(&scn);
+            let s0 = r0.start.unwrap_or(0);
+            let e0 = r0.end.map(|e| e.min(t)).unwrap_or(t);
+            let mut same: Vec<(String, usize)> = vec![];
+            match r0.callback.as_str() {
+                "csvdump" => {
+                    let x = m.csv(s0, e0);
+                    for (st, b) in [("blocks", &x.blocks), ("transactions", &x.transactions), ("tx_in", &x.tx_in), ("tx_out", &x.tx_out)] {
+                        same.push((format!("{}-{}-{}.csv", st, s0, e0), b.len()));
+                    }
+                }
+                "unspentcsvdump" => {
+                    let rows = m.unspent_rows(s0, e0).0;
+                    same.push((format!("unspent-{}-{}.csv", s0, e0), 36 + rows.iter().map(|r| r.len() + 1).sum::<usize>()));
+                }
+                "balances" => {
+                    let rows = m.balance_rows(s0, e0).0;
+                    same.push((format!("balances-{}-{}.csv", s0, e0), 16 + rows.iter().map(|r| r.len() + 1).sum::<usize>()));
+                }
+                _ => {}
+            }
+            for (name, len) in same {
+                scn.dump_pre.retain(|p| p.name != name);
+                scn.dump_pre.push(PreFile {
+                    name,
+                    bytes: Bytes(vec![b'?'; len]),
+                });
+            }
+        }
         h.check(&mut scn)?;
         Ok(())
     }
@@ -260,6 +310,12 @@ impl Prop for C13 {
                     if old.len() > newsz {
                         st.probe("stale_tmp_longer_than_output");
                     }
+                }
+            }
+            if i == 0 {
+                let stale_same_len = new_or_changed(o).iter().any(|n| o.dump_before.get(*n).map(|b| b.len() == o.dump[*n].len() && b.iter().all(|c| *c == b'?')).unwrap_or(false));
+                if stale_same_len {
+                    st.probe("same_length_stale_result");
                 }
             }
             if i > 0 && scn.runs[..i].iter().any(|p| p.callback == r.callback && p.start == r.start && p.end == r.end) {
